@@ -26,6 +26,8 @@ TU = "scriptplan/_cython/time_utils_cy.pyx"
 MP = "scriptplan/parser/macro_processor.py"
 
 MUTANTS = [
+    # ------------------------------------------------------------------ revert of repaired defect F60 (C06)
+    ("c06_alap_milestone_slot_start", "C06", [(TS, "                    date = self.backwardBound or self.project.idxToDate(slot_idx)", "                    date = self.project.idxToDate(slot_idx)")]),
     # ------------------------------------------------------------------ revert of repaired defect F59 (C19)
     ("c19_stdin_read_as_text", "C19", [(PL, "            stdin_bytes = sys.stdin.buffer.read()\n            try:\n                stdin_content = stdin_bytes.decode(\"utf-8\")\n            except UnicodeDecodeError as e:\n                raise FileNotFoundError(f\"Cannot read stdin: {e}\") from e\n",
                                          "            stdin_content = sys.stdin.read()\n            stdin_bytes = stdin_content.encode(\"utf-8\", \"surrogateescape\")\n")]),
